@@ -18,14 +18,13 @@ mkdir -p /verif/seeded/$name
 cp patch.diff demo.py /verif/seeded/$name/
 [ -f meta.txt ] && cp meta.txt /verif/seeded/$name/meta.txt
 res=""
-cd /repo && git apply /verif/seeded/$name/patch.diff || { echo "does not apply to /repo"; exit 2; }
+# the checks import the library from $VERIF_REPO/src: point them at the scratch worktree (patch applied there)
 for p in "$@"; do
-  (cd /verif && ./check $p --tier quick > /tmp/vt/seed_$p.log 2>&1); rc=$?
-  keys=$(grep -E '^  \[' /tmp/vt/seed_$p.log | head -3 | sed 's/^ *//' | tr '\n' ';' | tr '"' "'")
+  (cd /verif && VERIF_REPO=$wt ./check $p --tier quick > /tmp/vt/seed_${name}_$p.log 2>&1); rc=$?
+  keys=$(grep -E '^  \[' /tmp/vt/seed_${name}_$p.log | head -3 | sed 's/^ *//' | tr '\n' ';' | tr '"' "'")
   echo "  $p rc=$rc $keys"
   res="$res{\"check\": \"$p\", \"exit\": $rc, \"keys\": \"$keys\"},"
 done
-git checkout -- .
 cd /verif
 python3 - "$name" "$suite" "$rc_orig" "$rc_mut" "[${res%,}]" <<'PY'
 import json, sys, os
